@@ -5,7 +5,25 @@ From Inf Require Import base.ListX model.PathM model.EngineM model.PollM.
 Open Scope Z_scope.
 
 (* ================================================================== the stop rule *)
+
+(* the stop rule before the repair of L11 is the shared EngineM.add_to_path *)
+Lemma add_to_path_x_false : forall p f l r, add_to_path_x false p f l r = add_to_path p f l r.
+Proof.
+  intros p f l r. unfold add_to_path_x, add_to_path. destruct (append p f) as [p1 add].
+  destruct (rev (pts p1)) as [|lastf t]; [reflexivity|].
+  destruct (ford lastf <? l); destruct (r <? ford lastf); cbn; rewrite ?andb_true_r; reflexivity.
+Qed.
+
+Lemma propagate_loop_x_false : forall fs p l r n,
+  propagate_loop_x false p fs l r n = propagate_loop p fs l r n.
+Proof.
+  induction fs as [|f fs IH]; intros p l r n; cbn; [reflexivity|].
+  rewrite add_to_path_x_false. destruct (add_to_path p f l r) as [[[[p1 s] st] a]|]; [|reflexivity].
+  destruct st; [reflexivity|apply IH].
+Qed.
+
 Section Spec.
+Variable fx : bool.
 Variables left right : Z.
 
 (* propagate_loop without the counter *)
@@ -15,7 +33,7 @@ Fixpoint run_frames (p : path) (fs : list frame) : sres :=
   match fs with
   | [] => SMore p
   | f :: r =>
-      match add_to_path p f left right with
+      match add_to_path_x fx p f left right with
       | None => SErr
       | Some (p1, success, stop, _) => if stop then SStop p1 success else run_frames p1 r
       end
@@ -25,10 +43,10 @@ Definition erase_pr (r : prop_result) : sres :=
   match r with PR p s _ => SStop p s | PRExhausted p => SMore p | PRError => SErr end.
 
 Lemma propagate_loop_run_frames : forall fs p n,
-  erase_pr (propagate_loop p fs left right n) = run_frames p fs.
+  erase_pr (propagate_loop_x fx p fs left right n) = run_frames p fs.
 Proof.
   induction fs as [|f r IH]; intros p n; cbn; [reflexivity|].
-  destruct (add_to_path p f left right) as [[[[p1 s] st] a]|]; cbn; [|reflexivity].
+  destruct (add_to_path_x fx p f left right) as [[[[p1 s] st] a]|]; cbn; [|reflexivity].
   destruct st; cbn; [reflexivity|apply IH].
 Qed.
 
@@ -37,7 +55,7 @@ Lemma run_frames_app : forall a b p,
   match run_frames p a with SMore p1 => run_frames p1 b | r => r end.
 Proof.
   induction a as [|f a IH]; intros b p; cbn; [reflexivity|].
-  destruct (add_to_path p f left right) as [[[[p1 s] st] ad]|]; [|reflexivity].
+  destruct (add_to_path_x fx p f left right) as [[[[p1 s] st] ad]|]; [|reflexivity].
   destruct st; [reflexivity|apply IH].
 Qed.
 
@@ -62,77 +80,77 @@ Fixpoint first_fire (M k : nat) (fs : list frame) : option (nat * frame) :=
   | f :: r => if fires M k f then Some (k, f) else first_fire M (S k) r
   end.
 
-(* what C12 says about the success flag: success only for a frame outside the interfaces,
-   and always for such a frame unless it is also the maxlen-th (that corner is C09's) *)
-Definition succ_ok (M k : nat) (f : frame) (s : bool) : Prop :=
-  (s = true -> outside f = true) /\ (outside f = true -> S k <> M -> s = true).
+(* the success flag reported for the frame on which the rule fires: with the current rule
+   exactly "that frame is outside the interfaces"; before the repair of L11 additionally
+   "and it is not the maxlen-th" *)
+Definition succ_of (M k : nat) (f : frame) : bool :=
+  if fx then outside f else outside f && negb (S k =? M)%nat.
 
 Lemma add_to_path_room : forall p f,
   (plen p < maxlen p)%nat ->
-  exists s,
-  add_to_path p f left right =
-  Some (mkP (pts p ++ [f]) (maxlen p) (torigin p), s, fires (maxlen p) (plen p) f, true)
-  /\ succ_ok (maxlen p) (plen p) f s.
+  add_to_path_x fx p f left right =
+  Some (mkP (pts p ++ [f]) (maxlen p) (torigin p), succ_of (maxlen p) (plen p) f,
+        fires (maxlen p) (plen p) f, true).
 Proof.
-  intros p f Hlt. unfold add_to_path, append.
+  intros p f Hlt. unfold add_to_path_x, append.
   destruct (Nat.ltb_spec (plen p) (maxlen p)) as [_|H]; [|lia].
   cbv beta iota zeta. cbn [pts maxlen]. rewrite rev_unit.
   unfold plen at 1. cbn [pts].
   rewrite app_length. cbn [length]. replace (length (pts p) + 1)%nat with (S (plen p)) by (unfold plen; lia).
-  unfold succ_ok, fires, outside.
-  destruct (ford f <? left); destruct (right <? ford f);
-    destruct (Nat.eqb_spec (S (plen p)) (maxlen p)); cbn;
-    eexists; (split; [reflexivity|]); cbn; split; intros; try reflexivity; try congruence; try lia.
+  unfold succ_of, fires, outside.
+  destruct fx; destruct (ford f <? left); destruct (right <? ford f);
+    destruct (Nat.eqb_spec (S (plen p)) (maxlen p)); cbn; reflexivity.
+Qed.
+
+Lemma first_fire_ge : forall fs M k0 k f, first_fire M k0 fs = Some (k, f) -> (k0 <= k)%nat.
+Proof.
+  induction fs as [|x r IH]; intros M k0 k f H; cbn in H; [discriminate|].
+  destruct (fires M k0 x). - inversion H; lia. - apply IH in H. lia.
 Qed.
 
 (* run_frames = "first index where the stop rule fires" *)
 Lemma run_frames_first_fire : forall fs p,
   (plen p < maxlen p)%nat ->
+  run_frames p fs =
   match first_fire (maxlen p) (plen p) fs with
   | Some (k, f) =>
-      exists s,
-      run_frames p fs = SStop (mkP (pts p ++ firstn (S k - plen p) fs) (maxlen p) (torigin p)) s
-      /\ succ_ok (maxlen p) k f s
-  | None => run_frames p fs = SMore (mkP (pts p ++ fs) (maxlen p) (torigin p))
+      SStop (mkP (pts p ++ firstn (S k - plen p) fs) (maxlen p) (torigin p)) (succ_of (maxlen p) k f)
+  | None => SMore (mkP (pts p ++ fs) (maxlen p) (torigin p))
   end.
 Proof.
   induction fs as [|f r IH]; intros p Hlt.
   - cbn. rewrite app_nil_r. destruct p; reflexivity.
   - cbn [run_frames first_fire].
-    destruct (add_to_path_room p f Hlt) as (s0 & Ha & Hs0). rewrite Ha.
+    rewrite (add_to_path_room p f Hlt).
     destruct (fires (maxlen p) (plen p) f) eqn:Hf.
-    + replace (S (plen p) - plen p)%nat with 1%nat by lia. exists s0. split; [reflexivity|exact Hs0].
+    + replace (S (plen p) - plen p)%nat with 1%nat by lia. reflexivity.
     + set (p1 := mkP (pts p ++ [f]) (maxlen p) (torigin p)).
       assert (Hl1 : plen p1 = S (plen p)).
       { unfold plen, p1. cbn. rewrite app_length. cbn. lia. }
       assert (Hlt1 : (plen p1 < maxlen p1)%nat).
       { unfold fires in Hf. apply orb_false_iff in Hf. destruct Hf as [_ Hf].
         apply Nat.eqb_neq in Hf. cbn [maxlen p1]. lia. }
-      specialize (IH p1 Hlt1). cbn [maxlen torigin pts p1] in IH. rewrite Hl1 in IH.
+      rewrite (IH p1 Hlt1). cbn [maxlen torigin pts p1]. rewrite Hl1.
       destruct (first_fire (maxlen p) (S (plen p)) r) as [[k g]|] eqn:Hff.
-      * assert (Hk : (S (plen p) <= k)%nat).
-        { clear -Hff. revert Hff. generalize (S (plen p)). induction r as [|x r IHr]; intros n H; cbn in H; [discriminate|].
-          destruct (fires (maxlen p) n x). - inversion H; lia. - apply IHr in H. lia. }
-        destruct IH as (s & Hr & Hs). exists s. split; [|exact Hs]. rewrite Hr.
+      * pose proof (first_fire_ge _ _ _ _ _ Hff) as Hk.
         replace (S k - plen p)%nat with (S (S k - S (plen p))) by lia.
         cbn [firstn]. rewrite <- app_assoc. reflexivity.
-      * rewrite IH. rewrite <- app_assoc. reflexivity.
+      * rewrite <- app_assoc. reflexivity.
 Qed.
 
 (* from an empty path: the k-th frame is the (k+1)-th of the path *)
 Lemma run_frames_empty : forall fs M t0,
   (0 < M)%nat ->
+  run_frames (empty_path M t0) fs =
   match first_fire M 0 fs with
-  | Some (k, f) =>
-      exists s, run_frames (empty_path M t0) fs = SStop (mkP (firstn (S k) fs) M t0) s /\ succ_ok M k f s
-  | None => run_frames (empty_path M t0) fs = SMore (mkP fs M t0)
+  | Some (k, f) => SStop (mkP (firstn (S k) fs) M t0) (succ_of M k f)
+  | None => SMore (mkP fs M t0)
   end.
 Proof.
   intros fs M t0 HM.
-  pose proof (run_frames_first_fire fs (empty_path M t0)) as H.
-  cbn [empty_path plen pts maxlen torigin length app] in H.
-  specialize (H HM).
-  destruct (first_fire M 0 fs) as [[k f]|]; [rewrite Nat.sub_0_r in H|]; exact H.
+  rewrite (run_frames_first_fire fs (empty_path M t0)) by (cbn; exact HM).
+  cbn [empty_path plen pts maxlen torigin length app].
+  destruct (first_fire M 0 fs) as [[k f]|]; [rewrite Nat.sub_0_r|]; reflexivity.
 Qed.
 
 Lemma run_frames_maxlen0 : forall f fs t0, run_frames (empty_path 0 t0) (f :: fs) = SErr.
@@ -166,7 +184,73 @@ Proof.
   - replace (k0 + S j)%nat with (S k0 + j)%nat by lia. eapply IH; eauto.
 Qed.
 
+(* the length limit always fires: a stream that offers at least M - k0 frames stops *)
+Lemma first_fire_long : forall fs M k0,
+  (k0 < M)%nat -> (M - k0 <= length fs)%nat -> first_fire M k0 fs <> None.
+Proof.
+  induction fs as [|x r IH]; intros M k0 Hk Hl; cbn in *; [lia|].
+  destruct (fires M k0 x) eqn:Hx; [discriminate|].
+  unfold fires in Hx. apply orb_false_iff in Hx. destruct Hx as [_ Hx]. apply Nat.eqb_neq in Hx.
+  apply IH; lia.
+Qed.
+
+(* ---- the common contract of EngineBase.propagate, closed form *)
+Theorem propagate_contract : forall M t0 init stream,
+  (0 < M)%nat ->
+  erase_pr (propagate_x fx (empty_path M t0) init stream left right) =
+  match first_fire M 0 (init :: stream) with
+  | Some (k, f) => SStop (mkP (firstn (S k) (init :: stream)) M t0) (succ_of M k f)
+  | None => SMore (mkP (init :: stream) M t0)
+  end.
+Proof.
+  intros M t0 init stream HM. unfold propagate_x.
+  rewrite propagate_loop_run_frames. apply run_frames_empty. exact HM.
+Qed.
+
+(* first frame = the given phase point, whatever happens afterwards *)
+Theorem propagate_first_frame : forall M t0 init stream,
+  (0 < M)%nat ->
+  match erase_pr (propagate_x fx (empty_path M t0) init stream left right) with
+  | SStop p _ | SMore p => exists r, pts p = init :: r
+  | SErr => False
+  end.
+Proof.
+  intros M t0 init stream HM. rewrite propagate_contract by exact HM.
+  destruct (first_fire M 0 (init :: stream)) as [[k f]|]; cbn; eauto.
+Qed.
+
 End Spec.
+
+(* with the current rule: success <-> the frame the propagation stopped on is outside *)
+Theorem propagate_success_iff_crossing : forall left right M t0 init stream p s,
+  (0 < M)%nat ->
+  erase_pr (propagate_x true (empty_path M t0) init stream left right) = SStop p s ->
+  exists k f, nth_error (init :: stream) k = Some f /\ pts p = firstn (S k) (init :: stream) /\
+    (forall j g, (j < k)%nat -> nth_error (init :: stream) j = Some g ->
+                 outside left right g = false /\ S j <> M) /\
+    (outside left right f = true \/ S k = M) /\
+    s = outside left right f.
+Proof.
+  intros left right M t0 init stream p s HM H.
+  rewrite propagate_contract in H by exact HM.
+  destruct (first_fire left right M 0 (init :: stream)) as [[k f]|] eqn:Hff; [|discriminate].
+  injection H as Hp Hs. exists k, f.
+  destruct (first_fire_spec _ _ _ _ _ _ _ Hff) as (_ & Hn & Hf & Hb).
+  rewrite Nat.sub_0_r in Hn, Hb.
+  repeat split.
+  - exact Hn.
+  - subst p. reflexivity.
+  - specialize (Hb j g H H0). cbn in Hb. unfold fires in Hb. apply orb_false_iff in Hb. tauto.
+  - specialize (Hb j g H H0). cbn in Hb. unfold fires in Hb. apply orb_false_iff in Hb.
+    destruct Hb as [_ Hb]. apply Nat.eqb_neq in Hb. exact Hb.
+  - unfold fires in Hf. apply orb_true_iff in Hf. destruct Hf as [Hf|Hf]; [left; exact Hf|right].
+    apply Nat.eqb_eq in Hf. exact Hf.
+  - subst s. reflexivity.
+Qed.
+
+Theorem propagate_old_rule_is_EngineM : forall p init stream l r,
+  propagate_x false p init stream l r = propagate p init stream l r.
+Proof. intros. unfold propagate_x, propagate. apply propagate_loop_x_false. Qed.
 
 
 (* ================================================================== list plumbing *)
@@ -218,8 +302,29 @@ Lemma new_frames_length : forall {A} (l : list A) rd c,
   (c <= length l)%nat -> length (new_frames l rd c) = (c - rd)%nat.
 Proof. intros. unfold new_frames. rewrite skipn_length, firstn_length. lia. Qed.
 
-(* ================================================================== LAMMPS *)
-Section LammpsP.
+Lemma deliver_extend : forall {A} (l : list A) step rd c,
+  (step <= rd)%nat -> (rd <= length l)%nat -> (c <= length l)%nat ->
+  skipn step (firstn rd l) ++ skipn rd (firstn c l) = skipn step (firstn (Nat.max rd c) l).
+Proof.
+  intros A l step rd c Hs Hrd Hc.
+  destruct (le_lt_dec c rd) as [Hle|Hlt].
+  - rewrite (skipn_all2 (firstn c l)) by (rewrite firstn_length; lia).
+    rewrite Nat.max_l by lia. apply app_nil_r.
+  - rewrite Nat.max_r by lia.
+    assert (E : firstn c l = firstn rd l ++ skipn rd (firstn c l)).
+    { rewrite <- (firstn_skipn rd (firstn c l)) at 1. rewrite firstn_firstn.
+      rewrite Nat.min_l by lia. reflexivity. }
+    rewrite E at 2. rewrite skipn_app. rewrite firstn_length. rewrite Nat.min_l by lia.
+    replace (step - rd)%nat with 0%nat by lia. reflexivity.
+Qed.
+
+Lemma skipn_firstn_map : forall {A B} (f : A -> B) (l : list A) a b,
+  skipn a (firstn b (map f l)) = map f (skipn a (firstn b l)).
+Proof. intros. rewrite firstn_map, skipn_map. reflexivity. Qed.
+
+(* ================================================================== common to the pollers *)
+Section PollersP.
+Variable fx : bool.
 Variable ord : Z -> Z -> Z -> Z.
 Variables left right : Z.
 Variable rv : bool.
@@ -227,30 +332,11 @@ Variable traj : list conf.
 Variable code : Z.
 
 Notation own_from := (own_stream_from ord rv).
-Notation runf := (run_frames left right).
+Notation runf := (run_frames fx left right).
 
 Lemma snapshot_own : forall c k,
   snapshot rv (calc_order ord rv (cpos c) (cvel c) (cbox c)) k = own_frame ord rv k c.
 Proof. reflexivity. Qed.
-
-(* the repaired for-loop consumes its frames exactly as the stop rule over their own data *)
-Lemma lmp_for_fixed : forall fs p step,
-  lmp_for ord left right rv true (length fs) fs (map cbox fs) p step =
-  match runf p (own_from step fs) with
-  | SStop p1 s => FStop p1 s
-  | SMore p1 => FCont p1 (step + length fs) [] []
-  | SErr => FErr
-  end.
-Proof.
-  induction fs as [|c r IH]; intros p step; cbn [length map lmp_for own_stream_from run_frames].
-  - rewrite Nat.add_0_r. reflexivity.
-  - unfold pop_box. rewrite snapshot_own.
-    destruct (add_to_path p (own_frame ord rv step c) left right) as [[[[p1 s] st] ad]|]; [|reflexivity].
-    destruct st; [reflexivity|]. rewrite IH.
-    replace (S step + length r)%nat with (step + S (length r))%nat by lia. reflexivity.
-Qed.
-
-Definition vmax (reads : list (nat * bool)) : nat := fold_right (fun cb m => Nat.max (fst cb) m) 0%nat reads.
 
 (* outcome of a polling loop against the outcome of the stop rule over a frame stream *)
 Definition same_outcome (r : poll_result) (s : sres) : Prop :=
@@ -267,9 +353,47 @@ Proof.
   intros p. unfold fell_through. destruct (Z.eqb_spec code 0); cbn; auto.
 Qed.
 
+(* what every poller guarantees when it RETURNS NORMALLY WITH A STOP, derived from
+   [same_outcome] against a prefix of the trajectory: the path is the stop-rule prefix of the
+   FULL trajectory's own-data frames *)
+Lemma same_outcome_ret_full : forall r p0 n p s ps,
+  same_outcome r (runf p0 (own_stream ord rv (firstn n traj))) ->
+  r = Ret p s ps -> runf p0 (own_stream ord rv traj) = SStop p s.
+Proof.
+  intros r p0 n p s ps H ->. unfold own_stream in *.
+  rewrite <- (firstn_skipn n traj) at 1. rewrite own_stream_from_app.
+  destruct (runf p0 (own_from 0 (firstn n traj))) as [p1 s1|p1|] eqn:E; cbn in H; try contradiction.
+  destruct H as [-> ->]. apply run_frames_stop_prefix. exact E.
+Qed.
+
+Definition pstate_of (r : poll_result) : option pstate :=
+  match r with Ret _ _ ps | Trunc _ ps | Raise _ ps => Some ps | IdxError | Hang _ => None end.
+
+(* ================================================================== LAMMPS *)
+Section LammpsP.
+
+(* the repaired for-loop consumes its frames exactly as the stop rule over their own data *)
+Lemma lmp_for_fixed : forall fs p step,
+  lmp_for fx ord left right rv true (length fs) fs (map cbox fs) p step =
+  match runf p (own_from step fs) with
+  | SStop p1 s => FStop p1 s
+  | SMore p1 => FCont p1 (step + length fs) [] []
+  | SErr => FErr
+  end.
+Proof.
+  induction fs as [|c r IH]; intros p step; cbn [length map lmp_for own_stream_from run_frames].
+  - rewrite Nat.add_0_r. reflexivity.
+  - unfold pop_box. rewrite snapshot_own.
+    destruct (add_to_path_x fx p (own_frame ord rv step c) left right) as [[[[p1 s] st] ad]|]; [|reflexivity].
+    destruct st; [reflexivity|]. rewrite IH.
+    replace (S step + length r)%nat with (step + S (length r))%nat by lia. reflexivity.
+Qed.
+
+Definition vmax (reads : list (nat * bool)) : nat := fold_right (fun cb m => Nat.max (fst cb) m) 0%nat reads.
+
 Lemma lmp_polls_fixed : forall reads rd p,
   Forall (fun cb => (fst cb <= length traj)%nat) reads -> (rd <= length traj)%nat ->
-  same_outcome (lmp_polls ord left right rv traj code true reads rd [] [] p rd)
+  same_outcome (lmp_polls fx ord left right rv traj code true reads rd [] [] p rd)
                (runf p (own_from rd (skipn rd (firstn (Nat.max rd (vmax reads)) traj)))).
 Proof.
   induction reads as [|[c alive] rest IH]; intros rd p HF Hrd.
@@ -294,12 +418,82 @@ Qed.
    is the stop rule applied to the own-data frames of the prefix that was ever visible *)
 Theorem lammps_fixed_any_schedule : forall p0 reads,
   Forall (fun cb => (fst cb <= length traj)%nat) reads ->
-  same_outcome (lammps_run ord left right rv traj code true p0 false reads)
+  same_outcome (lammps_run fx ord left right rv traj code true p0 false reads)
                (runf p0 (own_stream ord rv (firstn (vmax reads) traj))).
 Proof.
   intros p0 reads HF. unfold lammps_run. cbn [andb].
   pose proof (lmp_polls_fixed reads 0 p0 HF (Nat.le_0_l _)) as H.
   rewrite Nat.max_0_l in H. cbn [skipn] in H. exact H.
+Qed.
+
+Lemma lammps_run_dead : forall fixL2 p0 reads,
+  lammps_run fx ord left right rv traj code fixL2 p0 true reads =
+  if code =? 0 then lammps_run fx ord left right rv traj code fixL2 p0 false reads
+  else Raise p0 (PExited code).
+Proof. intros. unfold lammps_run. cbn [andb]. destruct (code =? 0); reflexivity. Qed.
+
+(* a normal return with a stop is the stop-rule prefix of the full trajectory *)
+Theorem lammps_returns_prefix : forall p0 dead reads p s ps,
+  Forall (fun cb => (fst cb <= length traj)%nat) reads ->
+  lammps_run fx ord left right rv traj code true p0 dead reads = Ret p s ps ->
+  runf p0 (own_stream ord rv traj) = SStop p s.
+Proof.
+  intros p0 dead reads p s ps HF H.
+  destruct dead.
+  - rewrite lammps_run_dead in H. destruct (code =? 0); [|discriminate].
+    eapply same_outcome_ret_full; [apply lammps_fixed_any_schedule; exact HF|exact H].
+  - eapply same_outcome_ret_full; [apply lammps_fixed_any_schedule; exact HF|exact H].
+Qed.
+
+(* the whole trajectory was visible at some poll: the outcome does not depend on the schedule *)
+Theorem lammps_schedule_independent : forall p0 reads,
+  Forall (fun cb => (fst cb <= length traj)%nat) reads -> vmax reads = length traj ->
+  same_outcome (lammps_run fx ord left right rv traj code true p0 false reads)
+               (runf p0 (own_stream ord rv traj)).
+Proof.
+  intros p0 reads HF HV. pose proof (lammps_fixed_any_schedule p0 reads HF) as H.
+  rewrite HV, firstn_all in H. exact H.
+Qed.
+
+(* failure_raises / terminated_at_end, for both variants of the pairing and ANY schedule *)
+Lemma lmp_polls_trunc : forall fixL2 reads rd tr bx p step q ps,
+  lmp_polls fx ord left right rv traj code fixL2 reads rd tr bx p step = Trunc q ps -> code = 0.
+Proof.
+  intros fixL2. induction reads as [|[c alive] rest IH]; intros rd tr bx p step q ps H.
+  - cbn in H. unfold fell_through in H. destruct (Z.eqb_spec code 0); [assumption|discriminate].
+  - cbn [lmp_polls] in H.
+    destruct (lmp_for _ _ _ _ _ _ _ _ _ _ _); try discriminate. eapply IH; exact H.
+Qed.
+
+Lemma lmp_polls_pstate : forall fixL2 reads rd tr bx p step,
+  pstate_of (lmp_polls fx ord left right rv traj code fixL2 reads rd tr bx p step) <> Some PRunning /\
+  pstate_of (lmp_polls fx ord left right rv traj code fixL2 reads rd tr bx p step) <> Some PNone.
+Proof.
+  intros fixL2. induction reads as [|[c alive] rest IH]; intros rd tr bx p step.
+  - cbn. unfold fell_through. destruct (code =? 0); cbn; split; discriminate.
+  - cbn [lmp_polls].
+    destruct (lmp_for _ _ _ _ _ _ _ _ _ _ _); cbn; try (split; discriminate); [|apply IH].
+    destruct alive; cbn; split; discriminate.
+Qed.
+
+Theorem lammps_failure_raises : forall fixL2 p0 dead reads,
+  code <> 0 ->
+  match lammps_run fx ord left right rv traj code fixL2 p0 dead reads with
+  | Trunc _ _ => False     (* never a normal return without a stop *)
+  | _ => True
+  end.
+Proof.
+  intros fixL2 p0 dead reads Hc.
+  destruct (lammps_run fx ord left right rv traj code fixL2 p0 dead reads) eqn:E; auto.
+  unfold lammps_run in E. destruct (dead && negb (code =? 0)); [discriminate|].
+  apply lmp_polls_trunc in E. contradiction.
+Qed.
+
+Theorem lammps_terminated_at_end : forall fixL2 p0 dead reads,
+  pstate_of (lammps_run fx ord left right rv traj code fixL2 p0 dead reads) <> Some PRunning.
+Proof.
+  intros. unfold lammps_run. destruct (dead && negb (code =? 0)); [cbn; discriminate|].
+  apply lmp_polls_pstate.
 Qed.
 
 (* the original pairing agrees with the repaired one when the box never changes *)
@@ -318,14 +512,14 @@ Proof.
 Qed.
 
 Lemma lmp_for_const_box : forall b n tr m p step,
-  lmp_for ord left right rv false n tr (repeat b m) p step =
-  lmp_for ord left right rv true n tr (repeat b m) p step.
+  lmp_for fx ord left right rv false n tr (repeat b m) p step =
+  lmp_for fx ord left right rv true n tr (repeat b m) p step.
 Proof.
   induction n as [|n IH]; intros tr m p step; [reflexivity|].
   cbn [lmp_for]. rewrite pop_box_const.
   destruct tr as [|f tr']; [reflexivity|].
   destruct m as [|m]; [reflexivity|]. cbn [repeat pop_box].
-  destruct (add_to_path p _ left right) as [[[[p1 s] st] ad]|]; [|reflexivity].
+  destruct (add_to_path_x fx p _ left right) as [[[[p1 s] st] ad]|]; [|reflexivity].
   destruct st; [reflexivity|]. apply IH.
 Qed.
 
@@ -344,8 +538,8 @@ Qed.
 
 Lemma lmp_polls_const_box : forall b reads rd p step,
   Forall (fun c => cbox c = b) traj ->
-  lmp_polls ord left right rv traj code false reads rd [] [] p step =
-  lmp_polls ord left right rv traj code true reads rd [] [] p step.
+  lmp_polls fx ord left right rv traj code false reads rd [] [] p step =
+  lmp_polls fx ord left right rv traj code true reads rd [] [] p step.
 Proof.
   intros b. induction reads as [|[c alive] rest IH]; intros rd p step Hb; [reflexivity|].
   cbn [lmp_polls app].
@@ -357,11 +551,521 @@ Qed.
 
 Theorem lammps_original_const_box : forall b p0 dead reads,
   Forall (fun c => cbox c = b) traj ->
-  lammps_run ord left right rv traj code false p0 dead reads =
-  lammps_run ord left right rv traj code true p0 dead reads.
+  lammps_run fx ord left right rv traj code false p0 dead reads =
+  lammps_run fx ord left right rv traj code true p0 dead reads.
 Proof.
   intros. unfold lammps_run. destruct (dead && negb (code =? 0)); [reflexivity|].
   eapply lmp_polls_const_box; eassumption.
 Qed.
 
 End LammpsP.
+
+(* ================================================================== CP2K *)
+Section Cp2kP.
+Variable box0 : Z.
+
+(* the configuration CP2K's frame stands for: the box is the one of the initial configuration *)
+Definition fixbox (c : conf) : conf := mkC (cpos c) (cvel c) box0.
+
+Lemma cp2k_for_spec : forall cs ps' vs' p step,
+  cp2k_for fx ord left right rv box0 (length cs) (map cpos cs ++ ps') (map cvel cs ++ vs') p step =
+  match runf p (own_from step (map fixbox cs)) with
+  | SStop p1 s => F2Stop p1 s
+  | SMore p1 => F2Cont p1 (step + length cs) ps' vs'
+  | SErr => F2Err
+  end.
+Proof.
+  induction cs as [|c r IH]; intros ps' vs' p step; cbn [length map app cp2k_for own_stream_from run_frames].
+  - rewrite Nat.add_0_r. reflexivity.
+  - change (snapshot rv (calc_order ord rv (cpos c) (cvel c) box0) step) with (own_frame ord rv step (fixbox c)).
+    destruct (add_to_path_x fx p (own_frame ord rv step (fixbox c)) left right) as [[[[p1 s] st] ad]|]; [|reflexivity].
+    destruct st; [reflexivity|]. rewrite IH.
+    replace (S step + length r)%nat with (step + S (length r))%nat by lia. reflexivity.
+Qed.
+
+Definition pmax (reads : list (nat * nat * bool)) : nat :=
+  fold_right (fun r m => Nat.max (fst (fst r)) m) 0%nat reads.
+Definition qmax (reads : list (nat * nat * bool)) : nat :=
+  fold_right (fun r m => Nat.max (snd (fst r)) m) 0%nat reads.
+
+Definition reads_ok (reads : list (nat * nat * bool)) : Prop :=
+  Forall (fun r => (fst (fst r) <= length traj)%nat /\ (snd (fst r) <= length traj)%nat) reads.
+
+Lemma cp2k_polls_spec : forall reads rdp rdv p,
+  reads_ok reads -> (rdp <= length traj)%nat -> (rdv <= length traj)%nat ->
+  same_outcome
+    (cp2k_polls fx ord left right rv traj code box0 reads rdp rdv
+       (skipn (Nat.min rdp rdv) (firstn rdp (map cpos traj)))
+       (skipn (Nat.min rdp rdv) (firstn rdv (map cvel traj))) p (Nat.min rdp rdv))
+    (runf p (own_from (Nat.min rdp rdv)
+       (map fixbox (skipn (Nat.min rdp rdv)
+          (firstn (Nat.min (Nat.max rdp (pmax reads)) (Nat.max rdv (qmax reads))) traj))))).
+Proof.
+  induction reads as [|[[cp cv] alive] rest IH]; intros rdp rdv p HF Hp Hv.
+  - cbn [cp2k_polls pmax qmax fold_right]. rewrite !Nat.max_0_r.
+    rewrite skipn_all2 by (rewrite firstn_length; lia). cbn [map own_stream_from run_frames].
+    apply fell_through_outcome.
+  - inversion HF as [|x l [Hcp Hcv] HF']; subst. cbn [fst snd] in Hcp, Hcv.
+    cbn [cp2k_polls].
+    cbn [pmax qmax fold_right fst snd]. fold (pmax rest) (qmax rest).
+    generalize (pmax rest) (qmax rest) (IH (Nat.max rdp cp) (Nat.max rdv cv)). clear IH HF.
+    intros PR QR IH.
+    pose proof (map_length cpos traj) as HLp. pose proof (map_length cvel traj) as HLv.
+    remember (Nat.min rdp rdv) as step eqn:Estep.
+    remember (Nat.max rdp cp) as rdp' eqn:Erdp'. remember (Nat.max rdv cv) as rdv' eqn:Erdv'.
+    remember (Nat.min rdp' rdv') as m eqn:Em.
+    remember (Nat.min (Nat.max rdp (Nat.max cp PR)) (Nat.max rdv (Nat.max cv QR))) as K eqn:EK.
+    assert (B1 : (step <= rdp)%nat) by (clear - Estep; lia).
+    assert (B2 : (step <= rdv)%nat) by (clear - Estep; lia).
+    assert (B3 : (step <= m)%nat) by (clear - Estep Em Erdp' Erdv'; lia).
+    assert (B4 : (m <= rdp')%nat) by (clear - Em; lia).
+    assert (B5 : (m <= rdv')%nat) by (clear - Em; lia).
+    assert (B6 : (rdp' <= length traj)%nat) by (clear - Erdp' Hp Hcp; lia).
+    assert (B7 : (rdv' <= length traj)%nat) by (clear - Erdv' Hv Hcv; lia).
+    assert (B8 : (m <= K)%nat) by (clear - Em EK Erdp' Erdv'; lia).
+    assert (B9 : K = Nat.min (Nat.max rdp' PR) (Nat.max rdv' QR)) by (clear - EK Erdp' Erdv'; lia).
+    assert (B10 : Nat.max step m = m) by (clear - B3; lia).
+    assert (B11 : (m <= length traj)%nat) by (clear - B4 B6; lia).
+    (* the two buffers after `+=` *)
+    assert (Eps : skipn step (firstn rdp (map cpos traj)) ++ new_frames (map cpos traj) rdp cp
+                  = skipn step (firstn rdp' (map cpos traj))).
+    { unfold new_frames. rewrite Erdp'. apply deliver_extend; [exact B1|rewrite HLp; exact Hp|rewrite HLp; exact Hcp]. }
+    assert (Evs : skipn step (firstn rdv (map cvel traj)) ++ new_frames (map cvel traj) rdv cv
+                  = skipn step (firstn rdv' (map cvel traj))).
+    { unfold new_frames. rewrite Erdv'. apply deliver_extend; [exact B2|rewrite HLv; exact Hv|rewrite HLv; exact Hcv]. }
+    rewrite Eps, Evs.
+    (* split both at m *)
+    remember (skipn step (firstn m traj)) as cs eqn:Ecs.
+    assert (Hcs : length cs = (m - step)%nat).
+    { rewrite Ecs, skipn_length, firstn_length. clear - B11. lia. }
+    assert (Sp : skipn step (firstn rdp' (map cpos traj)) = map cpos cs ++ skipn m (firstn rdp' (map cpos traj))).
+    { rewrite (deliver_split (map cpos traj) step m rdp') by (rewrite ?HLp; assumption).
+      rewrite B10, skipn_firstn_map, <- Ecs. reflexivity. }
+    assert (Sv : skipn step (firstn rdv' (map cvel traj)) = map cvel cs ++ skipn m (firstn rdv' (map cvel traj))).
+    { rewrite (deliver_split (map cvel traj) step m rdv') by (rewrite ?HLv; assumption).
+      rewrite B10, skipn_firstn_map, <- Ecs. reflexivity. }
+    assert (Hn : Nat.min (length (skipn step (firstn rdp' (map cpos traj))))
+                         (length (skipn step (firstn rdv' (map cvel traj)))) = length cs).
+    { rewrite !skipn_length, !firstn_length, HLp, HLv, Hcs. clear - Em B3 B6 B7. lia. }
+    rewrite Hn. rewrite Sp at 1. rewrite Sv at 1. rewrite cp2k_for_spec.
+    (* the specification side, split at m as well *)
+    assert (Ssp : skipn step (firstn K traj) = cs ++ skipn m (firstn K traj)).
+    { rewrite (deliver_split traj step m K) by assumption. rewrite B10, <- Ecs. reflexivity. }
+    rewrite Ssp, map_app, own_stream_from_app, run_frames_app, map_length.
+    destruct (runf p (own_from step (map fixbox cs))) as [p1 s|p1|]; cbv beta iota.
+    + unfold same_outcome. split; reflexivity.
+    + rewrite (new_frames_length (map cpos traj) rdp cp) by (rewrite HLp; exact Hcp).
+      rewrite (new_frames_length (map cvel traj) rdv cv) by (rewrite HLv; exact Hcv).
+      assert (E1 : (rdp + (cp - rdp))%nat = rdp') by (clear - Erdp'; lia).
+      assert (E2 : (rdv + (cv - rdv))%nat = rdv') by (clear - Erdv'; lia).
+      assert (E3 : (step + (m - step))%nat = m) by (clear - B3; lia).
+      rewrite E1, E2, Hcs, E3, B9.
+      apply IH; [assumption|exact B6|exact B7].
+    + exact I.
+Qed.
+
+(* main statement for the CP2K loop: whatever the two arrival schedules, the outcome is the
+   stop rule over the frames for which BOTH the positions and the velocities were ever
+   visible, position k paired with velocity k *)
+Theorem cp2k_any_schedule : forall p0 reads,
+  reads_ok reads ->
+  same_outcome (cp2k_run fx ord left right rv traj code box0 p0 false reads)
+               (runf p0 (own_stream ord rv (map fixbox (firstn (Nat.min (pmax reads) (qmax reads)) traj)))).
+Proof.
+  intros p0 reads HF. unfold cp2k_run. cbn [andb].
+  pose proof (cp2k_polls_spec reads 0 0 p0 HF (Nat.le_0_l _) (Nat.le_0_l _)) as H.
+  cbn [Nat.min Nat.max skipn firstn] in H. exact H.
+Qed.
+
+Lemma cp2k_polls_trunc : forall reads rdp rdv ps vs p step q st,
+  cp2k_polls fx ord left right rv traj code box0 reads rdp rdv ps vs p step = Trunc q st -> code = 0.
+Proof.
+  induction reads as [|[[cp cv] alive] rest IH]; intros rdp rdv ps vs p step q st H.
+  - cbn in H. unfold fell_through in H. destruct (Z.eqb_spec code 0); [assumption|discriminate].
+  - cbn [cp2k_polls] in H.
+    destruct (cp2k_for _ _ _ _ _ _ _ _ _ _ _); try discriminate. eapply IH; exact H.
+Qed.
+
+Lemma cp2k_polls_pstate : forall reads rdp rdv ps vs p step,
+  pstate_of (cp2k_polls fx ord left right rv traj code box0 reads rdp rdv ps vs p step) <> Some PRunning.
+Proof.
+  induction reads as [|[[cp cv] alive] rest IH]; intros rdp rdv ps vs p step.
+  - cbn. unfold fell_through. destruct (code =? 0); cbn; discriminate.
+  - cbn [cp2k_polls].
+    destruct (cp2k_for _ _ _ _ _ _ _ _ _ _ _); cbn; try discriminate; [|apply IH].
+    destruct alive; cbn; discriminate.
+Qed.
+
+Theorem cp2k_failure_raises : forall p0 dead reads,
+  code <> 0 ->
+  match cp2k_run fx ord left right rv traj code box0 p0 dead reads with
+  | Trunc _ _ => False
+  | _ => True
+  end.
+Proof.
+  intros p0 dead reads Hc.
+  destruct (cp2k_run fx ord left right rv traj code box0 p0 dead reads) eqn:E; auto.
+  unfold cp2k_run in E. destruct (dead && negb (code =? 0)); [discriminate|].
+  apply cp2k_polls_trunc in E. contradiction.
+Qed.
+
+Theorem cp2k_terminated_at_end : forall p0 dead reads,
+  pstate_of (cp2k_run fx ord left right rv traj code box0 p0 dead reads) <> Some PRunning.
+Proof.
+  intros. unfold cp2k_run. destruct (dead && negb (code =? 0)); [cbn; discriminate|].
+  apply cp2k_polls_pstate.
+Qed.
+
+End Cp2kP.
+
+(* ================================================================== GROMACS *)
+Section GmxP.
+Variable fixL3 : bool.
+Variables hsz dsz head0 : nat.
+Variable final_size : nat.
+
+Notation gord := (gmx_order ord rv fixL3).
+
+(* the frames the consumer of get_gromacs_frames builds, in file order from index i *)
+Fixpoint gstream_from (i : nat) (cs : list conf) : list frame :=
+  match cs with
+  | [] => []
+  | c :: r => snapshot rv (gord c) i :: gstream_from (S i) r
+  end.
+
+Lemma gstream_from_app : forall a b i,
+  gstream_from i (a ++ b) = gstream_from i a ++ gstream_from (i + length a) b.
+Proof.
+  induction a as [|c a IH]; intros b i; cbn.
+  - rewrite Nat.add_0_r. reflexivity.
+  - rewrite IH. replace (S i + length a)%nat with (i + S (length a))%nat by lia. reflexivity.
+Qed.
+
+(* when is that the own-data stream?  repaired code, or forward direction, or an order
+   parameter that does not look at the velocity direction *)
+Definition gmx_own_cond : Prop :=
+  fixL3 = true \/ rv = false \/ (forall p v b, ord p (- v) b = ord p v b).
+
+Lemma gstream_own : gmx_own_cond -> forall cs i, gstream_from i cs = own_from i cs.
+Proof.
+  intros H. induction cs as [|c r IH]; intros i; cbn [gstream_from own_stream_from]; [reflexivity|].
+  rewrite IH. f_equal. unfold gmx_order, own_frame, snapshot, calc_order.
+  destruct H as [H|[H|H]].
+  - rewrite H. reflexivity.
+  - rewrite H. destruct fixL3; reflexivity.
+  - destruct fixL3; [reflexivity|]. destruct rv; [|reflexivity]. rewrite H. reflexivity.
+Qed.
+
+Lemma run_frames_cons : forall p f fs,
+  runf p (f :: fs) =
+  match add_to_path_x fx p f left right with
+  | None => SErr
+  | Some (p1, success, stop, _) => if stop then SStop p1 success else runf p1 fs
+  end.
+Proof. reflexivity. Qed.
+
+(* what a result means relative to the frames [rem] still unread at index [i], path [p] *)
+Definition gres_ok (p : path) (i : nat) (rem : list conf) (r : poll_result) : Prop :=
+  match r with
+  | Ret p1 s _ => runf p (gstream_from i rem) = SStop p1 s
+  | Trunc p1 _ => code = 0 /\ exists n, runf p (gstream_from i (firstn n rem)) = SMore p1
+  | Raise p1 _ => code <> 0 /\ exists n, runf p (gstream_from i (firstn n rem)) = SMore p1
+  | IdxError => exists n, runf p (gstream_from i (firstn n rem)) = SErr
+  | Hang _ => True
+  end.
+
+Lemma gres_ok_lift : forall p i cs rem' p' r,
+  runf p (gstream_from i cs) = SMore p' ->
+  gres_ok p' (i + length cs) rem' r -> gres_ok p i (cs ++ rem') r.
+Proof.
+  intros p i cs rem' p' r Hc H.
+  assert (L : forall X, runf p (gstream_from i (cs ++ X)) = runf p' (gstream_from (i + length cs) X)).
+  { intros X. rewrite gstream_from_app, run_frames_app, Hc. reflexivity. }
+  assert (F : forall n, firstn (length cs + n) (cs ++ rem') = cs ++ firstn n rem').
+  { intros n. rewrite firstn_app_2. reflexivity. }
+  destruct r as [p1 s ps|p1 ps|p1 ps| |p1]; cbn [gres_ok] in *.
+  - rewrite L. exact H.
+  - destruct H as [Hc0 [n Hn]]. split; [exact Hc0|]. exists (length cs + n)%nat. rewrite F, L. exact Hn.
+  - destruct H as [Hc0 [n Hn]]. split; [exact Hc0|]. exists (length cs + n)%nat. rewrite F, L. exact Hn.
+  - destruct H as [n Hn]. exists (length cs + n)%nat. rewrite F, L. exact Hn.
+  - exact I.
+Qed.
+
+Lemma gres_ok_prefix : forall p i rem n r,
+  gres_ok p i (firstn n rem) r -> gres_ok p i rem r.
+Proof.
+  intros p i rem n r H.
+  destruct r as [p1 s ps|p1 ps|p1 ps| |p1]; cbn [gres_ok] in *.
+  - rewrite <- (firstn_skipn n rem), gstream_from_app. apply run_frames_stop_prefix. exact H.
+  - destruct H as [Hc0 [k Hk]]. split; [exact Hc0|]. exists (Nat.min k n). rewrite <- firstn_firstn. exact Hk.
+  - destruct H as [Hc0 [k Hk]]. split; [exact Hc0|]. exists (Nat.min k n). rewrite <- firstn_firstn. exact Hk.
+  - destruct H as [k Hk]. exists (Nat.min k n). rewrite <- firstn_firstn. exact Hk.
+  - exact I.
+Qed.
+
+(* gmx_consume_all is only called with code = 0 *)
+Lemma gmx_consume_all_ok : forall cs i p,
+  code = 0 -> gres_ok p i cs (gmx_consume_all fx ord left right rv code fixL3 cs i p).
+Proof.
+  induction cs as [|c r IH]; intros i p Hc.
+  - cbn. split; [exact Hc|]. exists 0%nat. reflexivity.
+  - cbn [gmx_consume_all]. unfold gmx_consume.
+    destruct (add_to_path_x fx p (snapshot rv (gord c) i) left right) as [[[[p1 s] st] ad]|] eqn:E.
+    + destruct st.
+      * cbn [gres_ok gstream_from]. rewrite run_frames_cons, E. reflexivity.
+      * specialize (IH (S i) p1 Hc).
+        change (c :: r) with ([c] ++ r). apply (gres_ok_lift p i [c] r p1).
+        -- cbn [gstream_from]. rewrite run_frames_cons, E. reflexivity.
+        -- cbn [length]. replace (i + 1)%nat with (S i) by lia. exact IH.
+    + cbn [gres_ok]. exists 1%nat. cbn [firstn gstream_from]. rewrite run_frames_cons, E. reflexivity.
+Qed.
+
+Lemma gmx_exit_ok : forall rem br i p,
+  gres_ok p i rem (gmx_exit fx ord left right rv code fixL3 hsz dsz final_size rem br i p).
+Proof.
+  intros rem br i p. unfold gmx_exit. destruct (Z.eqb_spec code 0) as [Hc|Hc]; cbn [negb].
+  - eapply gres_ok_prefix. apply gmx_consume_all_ok. exact Hc.
+  - cbn [gres_ok]. split; [exact Hc|]. exists 0%nat. reflexivity.
+Qed.
+
+(* one epoch of a running program *)
+Lemma gmx_drain_spec : forall rem size ph br hs i p,
+  match gmx_drain fx ord left right rv fixL3 hsz dsz head0 rem size ph br hs i p with
+  | DStop p1 s => runf p (gstream_from i rem) = SStop p1 s
+  | DSleep ph' br' hs' i' p' rem' =>
+      exists cs, rem = cs ++ rem' /\ runf p (gstream_from i cs) = SMore p' /\ i' = (i + length cs)%nat
+  | DErr => exists n, runf p (gstream_from i (firstn n rem)) = SErr
+  | DBad => True
+  end.
+Proof.
+  induction rem as [|c rem' IH]; intros size ph br hs i p.
+  - cbn [gmx_drain]. destruct ph.
+    + destruct (br + (if (hs =? 0)%nat then head0 else hs) <=? size)%nat.
+      * destruct (br + hsz + dsz <=? size)%nat; [exact I|]. exists []. repeat split; cbn; lia.
+      * exists []. repeat split; cbn; lia.
+    + destruct (br + dsz <=? size)%nat; [exact I|]. exists []. repeat split; cbn; lia.
+  - assert (Inner : forall br0 hs0,
+      match (if (br0 + dsz <=? size)%nat then
+               match gmx_consume fx ord left right rv fixL3 p i c with
+               | None => DErr
+               | Some (p1, s, true) => DStop p1 s
+               | Some (p1, _, false) =>
+                   gmx_drain fx ord left right rv fixL3 hsz dsz head0 rem' size GOuter (br0 + dsz) hs0 (S i) p1
+               end
+             else DSleep GInner br0 hs0 i p (c :: rem')) with
+      | DStop p1 s => runf p (gstream_from i (c :: rem')) = SStop p1 s
+      | DSleep ph' br' hs' i' p' rem'' =>
+          exists cs, c :: rem' = cs ++ rem'' /\ runf p (gstream_from i cs) = SMore p' /\ i' = (i + length cs)%nat
+      | DErr => exists n, runf p (gstream_from i (firstn n (c :: rem'))) = SErr
+      | DBad => True
+      end).
+    { intros br0 hs0. destruct (br0 + dsz <=? size)%nat.
+      - unfold gmx_consume.
+        destruct (add_to_path_x fx p (snapshot rv (gord c) i) left right) as [[[[p1 s] st] ad]|] eqn:E.
+        + destruct st.
+          * cbn [gstream_from]. rewrite run_frames_cons, E. reflexivity.
+          * specialize (IH size GOuter (br0 + dsz)%nat hs0 (S i) p1).
+            destruct (gmx_drain fx ord left right rv fixL3 hsz dsz head0 rem' size GOuter (br0 + dsz) hs0 (S i) p1)
+              as [p2 s2|ph' br' hs' i' p' rem''| |].
+            -- cbn [gstream_from]. rewrite run_frames_cons, E. exact IH.
+            -- destruct IH as [cs [Hr [Hrun Hi]]]. exists (c :: cs). repeat split.
+               ++ cbn. rewrite Hr. reflexivity.
+               ++ cbn [gstream_from]. rewrite run_frames_cons, E. exact Hrun.
+               ++ cbn [length]. lia.
+            -- destruct IH as [n Hn]. exists (S n). cbn [firstn gstream_from]. rewrite run_frames_cons, E. exact Hn.
+            -- exact I.
+        + exists 1%nat. cbn [firstn gstream_from]. rewrite run_frames_cons, E. reflexivity.
+      - exists []. repeat split; cbn; lia. }
+    cbn [gmx_drain]. destruct ph.
+    + destruct (br + (if (hs =? 0)%nat then head0 else hs) <=? size)%nat.
+      * apply Inner.
+      * exists []. repeat split; cbn; lia.
+    + apply Inner.
+Qed.
+
+Lemma gmx_epochs_ok : forall eps rem ph br hs i p,
+  gres_ok p i rem (gmx_epochs fx ord left right rv code fixL3 hsz dsz head0 final_size eps rem ph br hs i p).
+Proof.
+  induction eps as [|size rest IH]; intros rem ph br hs i p.
+  - cbn [gmx_epochs]. destruct ph; [apply gmx_exit_ok|].
+    destruct (br + dsz <=? final_size)%nat; [|exact I].
+    destruct rem as [|c rem']; [exact I|].
+    unfold gmx_consume.
+    destruct (add_to_path_x fx p (snapshot rv (gord c) i) left right) as [[[[p1 s] st] ad]|] eqn:E.
+    + destruct st.
+      * cbn [gres_ok gstream_from]. rewrite run_frames_cons, E. reflexivity.
+      * change (c :: rem') with ([c] ++ rem'). apply (gres_ok_lift p i [c] rem' p1).
+        -- cbn [gstream_from]. rewrite run_frames_cons, E. reflexivity.
+        -- cbn [length]. replace (i + 1)%nat with (S i) by lia. apply gmx_exit_ok.
+    + cbn [gres_ok]. exists 1%nat. cbn [firstn gstream_from]. rewrite run_frames_cons, E. reflexivity.
+  - cbn [gmx_epochs].
+    pose proof (gmx_drain_spec rem size ph br hs i p) as D.
+    destruct (gmx_drain fx ord left right rv fixL3 hsz dsz head0 rem size ph br hs i p)
+      as [p1 s|ph' br' hs' i' p' rem'| |].
+    + exact D.
+    + destruct D as [cs [-> [Hrun ->]]]. eapply gres_ok_lift; [exact Hrun|apply IH].
+    + exact D.
+    + exact I.
+Qed.
+
+(* main statement for the GROMACS TRR state machine: for ANY sequence of observed file sizes *)
+Theorem gromacs_any_schedule : forall p0 dead eps,
+  gres_ok p0 0 traj
+    (gromacs_run fx ord left right rv traj code fixL3 hsz dsz head0 final_size p0 dead eps).
+Proof.
+  intros p0 dead eps. unfold gromacs_run.
+  destruct (dead && negb (code =? 0)) eqn:E.
+  - cbn [gres_ok]. apply andb_true_iff in E. destruct E as [_ E].
+    apply negb_true_iff in E. apply Z.eqb_neq in E. split; [exact E|]. exists 0%nat. reflexivity.
+  - apply gmx_epochs_ok.
+Qed.
+
+Theorem gromacs_returns_prefix : forall p0 dead eps p s ps,
+  gmx_own_cond ->
+  gromacs_run fx ord left right rv traj code fixL3 hsz dsz head0 final_size p0 dead eps = Ret p s ps ->
+  runf p0 (own_stream ord rv traj) = SStop p s.
+Proof.
+  intros p0 dead eps p s ps Hown H.
+  pose proof (gromacs_any_schedule p0 dead eps) as G. rewrite H in G. cbn [gres_ok] in G.
+  unfold own_stream. rewrite <- (gstream_own Hown). exact G.
+Qed.
+
+Theorem gromacs_failure_raises : forall p0 dead eps,
+  code <> 0 ->
+  match gromacs_run fx ord left right rv traj code fixL3 hsz dsz head0 final_size p0 dead eps with
+  | Trunc _ _ => False
+  | _ => True
+  end.
+Proof.
+  intros p0 dead eps Hc.
+  pose proof (gromacs_any_schedule p0 dead eps) as G.
+  destruct (gromacs_run fx ord left right rv traj code fixL3 hsz dsz head0 final_size p0 dead eps); auto.
+  cbn [gres_ok] in G. destruct G as [G _]. contradiction.
+Qed.
+
+End GmxP.
+
+(* ================================================================== in-process engines *)
+Section InprocP.
+Variable s : nat.
+
+(* ASE / TurtleMD / plug-in: the subcycle loop is the stop rule over every s-th fine state *)
+Theorem inproc_loop_spec : forall fine i p step,
+  inproc_loop fx ord left right rv s fine i p step =
+  match runf p (own_from step (every_from s i fine)) with
+  | SStop p1 b => Ret p1 b PNone
+  | SMore p1 => Trunc p1 PNone
+  | SErr => IdxError
+  end.
+Proof.
+  induction fine as [|c r IH]; intros i p step; cbn [inproc_loop every_from]; [reflexivity|].
+  destruct (i mod s =? 0)%nat.
+  - cbn [own_stream_from run_frames]. rewrite snapshot_own.
+    destruct (add_to_path_x fx p (own_frame ord rv step c) left right) as [[[[p1 b] st] ad]|]; [|reflexivity].
+    destruct st; [reflexivity|apply IH].
+  - apply IH.
+Qed.
+
+(* it cannot run out of frames when the loop offers at least maxlen of them *)
+Theorem inproc_stops : forall fine M t0,
+  (0 < M)%nat -> (M <= length (every_from s 0 fine))%nat ->
+  exists p b, inproc_loop fx ord left right rv s fine 0 (empty_path M t0) 0 = Ret p b PNone.
+Proof.
+  intros fine M t0 HM HL. rewrite inproc_loop_spec, run_frames_empty by exact HM.
+  destruct (first_fire left right M 0 (own_from 0 (every_from s 0 fine))) as [[k f]|] eqn:E.
+  - eauto.
+  - exfalso. revert E. apply first_fire_long; [exact HM|].
+    rewrite own_stream_from_length. lia.
+Qed.
+End InprocP.
+
+End PollersP.
+
+(* ================================================================== CP2K, return form *)
+Lemma cp2k_run_dead : forall fx ord left right rv traj code box0 p0 reads,
+  cp2k_run fx ord left right rv traj code box0 p0 true reads =
+  if code =? 0 then cp2k_run fx ord left right rv traj code box0 p0 false reads
+  else Raise p0 (PExited code).
+Proof. intros. unfold cp2k_run. cbn [andb]. destruct (code =? 0); reflexivity. Qed.
+
+Theorem cp2k_returns_prefix : forall fx ord left right rv traj code box0 p0 dead reads p s ps,
+  reads_ok traj reads ->
+  cp2k_run fx ord left right rv traj code box0 p0 dead reads = Ret p s ps ->
+  run_frames fx left right p0 (own_stream ord rv (map (fixbox box0) traj)) = SStop p s.
+Proof.
+  intros fx ord left right rv traj code box0 p0 dead reads p s ps HF H.
+  assert (G : cp2k_run fx ord left right rv traj code box0 p0 false reads = Ret p s ps).
+  { destruct dead; [|exact H]. rewrite cp2k_run_dead in H. destruct (code =? 0); [exact H|discriminate]. }
+  pose proof (cp2k_any_schedule fx ord left right rv traj code box0 p0 reads HF) as O.
+  rewrite <- firstn_map in O.
+  eapply (same_outcome_ret_full fx ord left right rv (map (fixbox box0) traj) code); [exact O|exact G].
+Qed.
+
+(* ================================================================== time reversal *)
+Section Retrace.
+Variable T : conf -> conf.                              (* one frame interval of the dynamics *)
+Hypothesis T_rev : forall c, T (crev (T c)) = crev c.   (* time reversibility *)
+
+Lemma iter_shift : forall n c, iter (S n) T c = iter n T (T c).
+Proof. induction n as [|n IH]; intros c; [reflexivity|]. cbn [iter] in *. rewrite IH. reflexivity. Qed.
+
+Lemma orbit_snoc : forall n c, orbit T (S n) c = orbit T n c ++ [iter n T c].
+Proof.
+  induction n as [|n IH]; intros c; [reflexivity|].
+  change (orbit T (S (S n)) c) with (c :: orbit T (S n) (T c)). rewrite IH.
+  cbn [orbit app]. rewrite <- iter_shift. reflexivity.
+Qed.
+
+(* the program started from the velocity-reversed frame j writes frames j, j-1, ..., 0 of the
+   forward trajectory, each with reversed velocities *)
+Theorem orbit_reversed : forall j c0,
+  orbit T (S j) (crev (iter j T c0)) = map crev (rev (orbit T (S j) c0)).
+Proof.
+  induction j as [|j IH]; intros c0; [reflexivity|].
+  rewrite (orbit_snoc (S j) c0), rev_unit, map_cons, <- IH.
+  change (orbit T (S (S j)) (crev (iter (S j) T c0)))
+    with (crev (iter (S j) T c0) :: orbit T (S j) (T (crev (iter (S j) T c0)))).
+  cbn [iter]. rewrite T_rev. reflexivity.
+Qed.
+End Retrace.
+
+Lemma map_ford_own_from : forall ord rv cs k,
+  map ford (own_stream_from ord rv k cs) =
+  map (fun c => ord (cpos c) (if rv then - cvel c else cvel c) (cbox c)) cs.
+Proof. induction cs as [|c r IH]; intros k; cbn; [reflexivity|]. rewrite IH. reflexivity. Qed.
+
+(* the order parameters a backward propagation from frame j stores are those of the forward
+   frames j, j-1, ..., 0 (velocity direction included) *)
+Theorem backward_retraces : forall T ord j c0,
+  (forall c, T (crev (T c)) = crev c) ->
+  map ford (own_stream ord true (orbit T (S j) (crev (iter j T c0)))) =
+  rev (map ford (own_stream ord false (orbit T (S j) c0))).
+Proof.
+  intros T ord j c0 HT. unfold own_stream. rewrite !map_ford_own_from, (orbit_reversed T HT).
+  rewrite map_map, <- map_rev. apply map_ext. intros c. cbn. rewrite Z.opp_involutive. reflexivity.
+Qed.
+
+(* ================================================================== refutation witnesses *)
+(* L2: with `box_trajectory.pop()` two frames arriving in one poll are paired with each
+   other's box: order parameter = the box tag, boxes 10 and 20, right interface 15 *)
+Theorem lammps_pop_last_refuted :
+  exists ord left right traj reads p s ps,
+    lammps_run true ord left right false traj 0 false (empty_path 5 0) false reads = Ret p s ps /\
+    run_frames true left right (empty_path 5 0) (own_stream ord false traj) <> SStop p s /\
+    lammps_run true ord left right false traj 0 true (empty_path 5 0) false reads <> Ret p s ps.
+Proof.
+  exists (fun _ _ b => b), (-100), 15, [mkC 0 1 10; mkC 1 2 20], [(2%nat, true)].
+  eexists. eexists. eexists. split; [vm_compute; reflexivity|]. split; vm_compute; discriminate.
+Qed.
+
+(* L3: GROMACS, reverse = True, order parameter = the velocity: the stored value is that of
+   the un-reversed file velocity *)
+Theorem gromacs_double_negation_refuted :
+  exists ord left right traj eps p s ps,
+    gromacs_run true ord left right true traj 0 false 10 20 10 60 (empty_path 2 0) false eps = Ret p s ps /\
+    run_frames true left right (empty_path 2 0) (own_stream ord true traj) <> SStop p s /\
+    gromacs_run true ord left right true traj 0 true 10 20 10 60 (empty_path 2 0) false eps <> Ret p s ps.
+Proof.
+  exists (fun _ v _ => v), (-5), 0, [mkC 0 1 0; mkC 1 1 0], [60%nat].
+  eexists. eexists. eexists. split; [vm_compute; reflexivity|]. split; vm_compute; discriminate.
+Qed.
